@@ -46,6 +46,8 @@ FIELDS = {
     "selfsub": ["t: int = 0"],
     # a nested *plain* dataclass (no mixin) that opted in to dialect support itself
     "plainnested": ["a: bytes", "pn: Optional[PN] = None", "pl: List[PN] = field(default_factory=list)"],
+    # a nested plain dataclass with a field typed with its own SUBCLASS (not a self-reference: the subclass needs its own units)
+    "plainsub": ["root: PNode", "t: int = 0"],
     # a specialised generic mixin class nested in C (units keyed by a hash of the type arguments)
     "generic": ["g: GBox[datetime.date]", "h: Optional[GBox[bytes]] = None"],
 }
@@ -59,10 +61,11 @@ class FPoint:
     fields: str = "native"
     nested: bool = False
     call_dialect: str = "none"  # none | strategy | options
+    cfg_dialect: bool = False  # the class also names a Config.dialect (a level between the call dialect and the format's)
 
     def label(self):
         tag = "{generic+D}" if (self.fields == "generic" and self.dialect_support) else ""
-        return f"[{self.mixin}/{self.mode}/{self.fields}{'/D' if self.dialect_support else ''}{'/nested' if self.nested else ''}{'/call=' + self.call_dialect if self.call_dialect != 'none' else ''}]{tag}"
+        return f"[{self.mixin}/{self.mode}/{self.fields}{'/D' if self.dialect_support else ''}{'/nested' if self.nested else ''}{'/call=' + self.call_dialect if self.call_dialect != 'none' else ''}{'/cfgD' if self.cfg_dialect else ''}]{tag}"
 
 
 def class_source(p: FPoint):
@@ -79,6 +82,10 @@ def class_source(p: FPoint):
     else:
         src.append("    pass")
     cfg = []
+    if p.cfg_dialect:
+        src += ["def _ser_int(v):", "    return str(v)", "def _de_int(v):", "    return int(v)", "class CfgD(Dialect):",
+                "    serialization_strategy = {int: {'serialize': _ser_int, 'deserialize': _de_int}}"]
+        cfg.append("dialect = CfgD")
     if p.mode == "lazy":
         cfg.append("lazy_compilation = True")
     if p.dialect_support:
@@ -90,6 +97,11 @@ def class_source(p: FPoint):
         src += ["@dataclass", "class PN:", "    z: bytes = b''", "    w: Optional[datetime.date] = None"]
         if cfg:
             src += ["    class Config(BaseConfig):"] + ["        " + c for c in cfg]
+    if p.fields == "plainsub":
+        src += ["@dataclass", "class PNode:", "    a: bytes = b''", "    sub: Optional['PLeaf'] = None"]
+        if cfg:
+            src += ["    class Config(BaseConfig):"] + ["        " + c for c in cfg]
+        src += ["@dataclass", "class PLeaf(PNode):", "    w: int = 0"]
     if p.fields == "generic":
         src += ["_GT = TypeVar('_GT')", "@dataclass", f"class GBox(Generic[_GT], {mixname}):", "    v: _GT"]
         if cfg:
@@ -127,6 +139,8 @@ def sample_instance(mod, p: FPoint):
         kw["n"] = mod.Later(b"z", None)
     if p.fields == "plainnested":
         kw = dict(a=b"ab", pn=mod.PN(b"z", datetime.date(2020, 1, 2)), pl=[mod.PN(b"y", None)])
+    if p.fields == "plainsub":
+        kw = dict(root=mod.PNode(b"ab", mod.PLeaf(b"cd", None, 5)), t=1)
     if p.fields == "generic":
         kw = dict(g=mod.GBox(datetime.date(2020, 1, 2)), h=mod.GBox(b"xy"))
     if p.fields == "selfsub":
@@ -517,7 +531,7 @@ def g7_task(payload):
             obs.append(dict(id=f"{pid}.H7{label}/dialect_first", status="proved" if not hist else "refuted", unit="history: dialect call before any default call, fresh family (bounded)", bounded=True,
                             detail="; ".join(hist)[:700], witness=({"confirmed": True, "source": src, "input": "first call of each entry point with dialect=CallD on freshly defined classes", "why": hist[0]} if hist else None)))
         recs = [r for r in rec.records if r.seq >= recs0[0].seq] if recs0 else []
-        mine = [r for r in recs if r.builder is not None and r.builder.cls in (cls, getattr(mod, "Later", None), getattr(mod, "GBox", None), getattr(mod, "PN", None))]
+        mine = [r for r in recs if r.builder is not None and r.builder.cls in (cls, getattr(mod, "Later", None), getattr(mod, "GBox", None), getattr(mod, "PN", None), getattr(mod, "PNode", None), getattr(mod, "PLeaf", None))]
         # ---- params
         decl = {}
         probs = []
@@ -730,6 +744,9 @@ def lattice(tier):
                     for cd in (["none"] if not ds else ["none", "strategy", "options"]):
                         pts.append(FPoint(mixin, mode, ds, fs, False, cd))
                 if mode != "postponed":
+                    # Config.dialect as a middle level: default units and call-dialect units (format's own dialect still below both)
+                    for cd in (["none"] if not ds else ["strategy", "options"]):
+                        pts.append(FPoint(mixin, mode, ds, "native", False, cd, True))
                     pts.append(FPoint(mixin, mode, ds, "small", True, "strategy" if ds else "none"))
                     # a Self-typed field: the nested unit is built by the Self branch of pack.py / unpack.py
                     pts.append(FPoint(mixin, mode, ds, "selfref", False, "strategy" if ds else "none"))
@@ -738,6 +755,7 @@ def lattice(tier):
                     pts.append(FPoint(mixin, mode, ds, "generic", False, "strategy" if ds else "none"))
                     if mixin in ("dict", "msgpack"):
                         pts.append(FPoint(mixin, mode, ds, "plainnested", False, "strategy" if ds else "none"))
+                        pts.append(FPoint(mixin, mode, ds, "plainsub", False, "strategy" if ds else "none"))
     seen, out = set(), []
     for p in pts:
         if p.label() not in seen:
